@@ -15,13 +15,21 @@ REPO = os.environ.get("PYVC_REPO", "/repo")
 NATIVE_PY = "/venv/bin/python"
 
 
+def load_sets(pid):
+    mod = importlib.import_module("contracts." + pid)
+    sets = [mod.build()]
+    if hasattr(mod, "build_extra"):
+        sets.extend(mod.build_extra())
+    return sets
+
+
 def _worker(args):
     pid, key, opts = args
     sys.path.insert(0, HERE)
     from pyvc.verify import verify_function
     try:
-        mod = importlib.import_module("contracts." + pid)
-        C = mod.build()
+        si, key = key if isinstance(key, tuple) else (0, key)
+        C = load_sets(pid)[si]
         r = verify_function(C, key, opts)
         import json as _json
         return _json.loads(_json.dumps(r.to_json(), default=repr))     # plain data only (no solver objects)
@@ -162,14 +170,25 @@ def run_property(pid, tier="quick", seed=0, only=None, jobs=None, no_replay=Fals
     sys.path.insert(0, HERE)
     status = {"violations": [], "known": [], "undecided": [], "crashes": [], "vacuous": []}
     try:
-        mod = importlib.import_module("contracts." + pid)
-        C = mod.build()
+        sets = load_sets(pid)
+        C = sets[0]
     except Exception as e:      # noqa
         import traceback
         print("UNDECIDED: cannot build contracts for %s: %s: %s" % (pid, type(e).__name__, e))
         traceback.print_exc()
         return 2
-    keys = [k for k, f in C.fns.items() if f.verified and (not only or only in k)]
+    keys = [(si, k) for si, cs in enumerate(sets) for k, f in cs.fns.items()
+            if f.verified and (not only or only in k)]
+    # additional contract sets of the same property (e.g. a bounded scenario with its own models) are merged in
+    for extra in sets[1:]:
+        for k, f in extra.fns.items():
+            if k in C.fns and f.verified:
+                k2 = k + "#" + extra.pid
+            else:
+                k2 = k
+            C.fns.setdefault(k2, f)
+        C.assumptions.extend(a for a in extra.assumptions if a not in C.assumptions)
+        C.finite_checks.extend(extra.finite_checks)
     opts = {"fn_timeout": 240 if tier == "quick" else 900, "strings": getattr(C, "strings", False), "tier": tier,
             "seed": seed}
     if tier == "thorough":
@@ -207,7 +226,7 @@ def run_property(pid, tier="quick", seed=0, only=None, jobs=None, no_replay=Fals
                 status["vacuous"].append("%s: the call of %s at line %s can never return normally under its contract "
                                          "(postcondition inconsistent with every caller state: contract error)" %
                                          (r["key"], cs["callee"], cs["line"]))
-        if not r["obligations"] and C.fns[r["key"]].ensures:
+        if not r["obligations"] and r["key"] in C.fns and C.fns[r["key"]].ensures:
             status["vacuous"].append("%s: zero obligations generated" % r["key"])
         for ob in r["obligations"]:
             vcs += 1
